@@ -508,8 +508,13 @@ class Interp(ExprMixin, StmtMixin):
             fn.memoised = memo
             fn.owner = owner
             fn._no_stub = True
-            made = make_args(self, path)
+            self.interpreting = getattr(self, "interpreting", 0) + 1
+            try:
+                made = make_args(self, path)
+            finally:
+                self.interpreting -= 1
             args, kwargs = made[0], made[1]
+            self.interpreting += 1
             try:
                 v = self.call_value(fn, args, kwargs, path)
                 out = Outcome("ret", value=v)
@@ -523,6 +528,8 @@ class Interp(ExprMixin, StmtMixin):
                 out = Outcome("unsupported", value=f"engine: Unsupported {e} (near line {self.cur_line})")
             except RecursionError:
                 out = Outcome("unsupported", value="engine: unbounded recursion while interpreting")
+            finally:
+                self.interpreting -= 1
             return out, list(self.obligations), list(self.frame_writes), (made[2] if len(made) > 2 else None)
 
         for p, res in explore(one, axioms=axioms, max_paths=max_paths, timeout_ms=timeout_ms, name_prefix=name_prefix):
